@@ -556,6 +556,13 @@ def inline_locals(fn, expr, max_rounds=3):
         elif isinstance(n, ast.Assign):
             for t in n.targets:
                 multi.update(x.id for x in ast.walk(t) if isinstance(x, ast.Name) and isinstance(x.ctx, ast.Store))
+    # names whose object is mutated in place are containers being filled, not aliases: never inline them
+    MUT = {"append", "extend", "insert", "update", "add", "setdefault", "pop", "remove", "clear", "sort", "reverse", "discard", "write", "seek"}
+    for n in walk_no_nested(fn):
+        if isinstance(n, ast.Call) and isinstance(n.func, ast.Attribute) and isinstance(n.func.value, ast.Name) and n.func.attr in MUT:
+            multi.add(n.func.value.id)
+        elif isinstance(n, ast.Subscript) and isinstance(n.ctx, (ast.Store, ast.Del)) and isinstance(n.value, ast.Name):
+            multi.add(n.value.id)
     params = {a.arg for a in fn.args.posonlyargs + fn.args.args + fn.args.kwonlyargs} if hasattr(fn, "args") else set()
     single = {k: v[0] for k, v in defs.items() if len(v) == 1 and k not in multi and k not in params}
 
@@ -567,10 +574,10 @@ def inline_locals(fn, expr, max_rounds=3):
 
     out = ast.parse(norm(expr), mode="eval").body
     for _ in range(max_rounds):
-        new = T().visit(out)
-        if ast.dump(new) == ast.dump(out):
+        before = ast.dump(out)
+        out = T().visit(out)
+        if ast.dump(out) == before:
             break
-        out = new
     return out
 
 
